@@ -63,7 +63,7 @@ func statusReportPayload() []byte {
 }
 
 type c15Report struct {
-	Status   int    // asserted status position
+	Status   int // asserted status position
 	Reason   uint64
 	RefID    string
 	HasTime  bool
